@@ -248,13 +248,27 @@ def install(E):
     S['std::cell::RefCell::borrow'] = cell_borrow
     S['std::cell::RefCell::borrow_mut'] = cell_borrow_mut
     S['std::cell::RefCell::replace'] = cell_replace
+    def cell_take(I, args, e, c):
+        cell = args[0]
+        old = cell_content(I, cell, e, e['ty'])
+        cls = ty_class(e['ty'], I.symparams)
+        if cls[0] != 'bdd': raise Undecidable('RefCell::take on a cell that does not hold a diagram', e['loc'])
+        I.cells[cell.key] = VBdd(('leaf', False))          # Default for Rc<BDD<_>> is the False leaf
+        I.events.append(('cell_write', cell.key, ('leaf', False), e['loc']))
+        return old
+    S['std::cell::RefCell::take'] = cell_take
     S['std::cell::RefCell::new'] = cell_new
 
     def hm_get(I, args, e, c):
         table, key = args
         if not isinstance(key, VBdd): raise Undecidable('HashMap::get with key %r' % (key,), e['loc'])
         kt = I.W.rep(key.term)
-        I.events.append(('table_get', I.term_of(table), kt, e['loc']))
+        tt = I.term_of(table)
+        I.events.append(('table_get', tt, kt, e['loc']))
+        is_nodes = isinstance(tt, tuple) and tt[0] == 'cellval' and isinstance(tt[1], tuple) and tt[1][0] == 'fld' and tt[1][3] == 'nodes'
+        if not is_nodes:
+            # any other map (e.g. a memo cache): nothing is known about the stored value
+            return VOption('opaque', term=('get', tt, kt), mk=lambda t, tt=tt, kt=kt: VBdd(('mapval', tt, kt)))
         if kt[0] == 'leaf':
             # R2: the table always holds both leaves (seeded by new(), never removed: rules E2/E3)
             return VOption('some', VBdd(kt))
